@@ -60,7 +60,7 @@ var hostileConsts = []uint64{0xffffffffffffffff, 0xfffffffffffffffe, 0x7ffffffff
 
 // mutateHostile applies one or more structural mutations to a valid rendering.
 // Returns the bytes and a class label.
-func mutateHostile(rt *rapid.T, r *Rendered, le bool) ([]byte, string, bool) {
+func mutateHostile(rt *rapid.T, r *Rendered, le bool, hint int) ([]byte, string, bool) {
 	w := append([]byte{}, r.Bytes...)
 	var prefixes, discs []Span
 	for _, sp := range r.Spans {
@@ -87,7 +87,13 @@ func mutateHostile(rt *rapid.T, r *Rendered, le bool) ([]byte, string, bool) {
 		sp := prefixes[rapid.IntRange(0, len(prefixes)-1).Draw(rt, "which")]
 		cur := getUint(w[sp.Off:sp.Off+sp.Len], sp.Len, le)
 		var nv uint64
-		switch rapid.IntRange(0, 6).Draw(rt, "pv") {
+		pvMax := 6
+		if hint > 0 {
+			pvMax = 8
+		}
+		switch rapid.IntRange(0, pvMax).Draw(rt, "pv") {
+		case 7, 8: // not larger than what an earlier call in this process legitimately carried
+			nv = uint64(rapid.IntRange(1, hint).Draw(rt, "le-hint")) & sp.Max
 		case 5: // a power of two (products with an element width wrap in narrow arithmetic), +-1
 			nv = (uint64(1) << uint(rapid.IntRange(0, 8*sp.Len-1).Draw(rt, "pow"))) + uint64(rapid.SampledFrom([]int{0, 0, 1, -1}).Draw(rt, "pm"))
 			nv &= sp.Max
@@ -135,10 +141,13 @@ func mutateHostile(rt *rapid.T, r *Rendered, le bool) ([]byte, string, bool) {
 			nb = make([]byte, sp.Len)
 		case 2:
 			nb = bytesOf(0xff, sp.Len)
-		case 3: // digits
+		case 3: // digits, possibly behind a sign or with a number-syntax character (keys parsed as numbers)
 			nb = make([]byte, sp.Len)
 			for i := range nb {
 				nb[i] = '0' + byte(rapid.IntRange(0, 9).Draw(rt, "digit"))
+			}
+			if rapid.Bool().Draw(rt, "signed") {
+				nb[rapid.IntRange(0, sp.Len-1).Draw(rt, "spos")] = rapid.SampledFrom([]byte{'-', '+', '.', 'e', 'x', '_', ' '}).Draw(rt, "sch")
 			}
 		case 4: // one byte of the key replaced by the pad / a space / NUL
 			nb = append([]byte{}, w[sp.Off:sp.Off+sp.Len]...)
